@@ -34,6 +34,8 @@ import (
 	"golang.org/x/tools/go/ssa"
 )
 
+var traceTrans = os.Getenv("GSE_OUTCOMES_FULL") != ""
+
 var noSleepSets = os.Getenv("GSE_NOSLEEP") != ""
 
 type schedKind int
@@ -78,7 +80,7 @@ func (t trans) String() string { return fmt.Sprintf("g%d.%d/g%d.%d", t.g, t.k, t
 
 type access struct {
 	ch   *Chan
-	kind int // 0 peek, 1 send/recv, 2 close
+	kind int // 0 peek (default of a select), 1 send/recv, 2 close, 3 announce (a goroutine parked at an operation on the channel)
 	mu   Ptr // mutex / wait group instead of a channel
 }
 
@@ -86,6 +88,19 @@ type sleeper struct {
 	t   trans
 	gs  [2]int
 	acc []access
+	// tailKnown: the transition was executed on the recording path and what its tail announced
+	// is part of acc. For a transition that was not executed the announcements are unknown, and it
+	// is treated as dependent on every transition that peeks (takes a default branch).
+	tailKnown bool
+}
+
+func (s sleeper) peeks() bool {
+	for _, a := range s.acc {
+		if a.kind == 0 && a.ch != nil && !a.ch.DoneOnly {
+			return true
+		}
+	}
+	return false
 }
 
 // gInfo is the snapshot of one goroutine taken at quiescence.
@@ -197,6 +212,8 @@ func (m *Machine) accessesOf(t trans) sleeper {
 	s := sleeper{t: t, gs: [2]int{t.g, t.p}}
 	g := m.gor[t.g]
 	switch t.k {
+	case -5:
+		// local step: no access of its own (its announcements are added when its tail has run)
 	case -4:
 		s.acc = append(s.acc, access{nil, 1, g.pending.mu})
 	case -2:
@@ -219,6 +236,9 @@ func (m *Machine) accessesOf(t trans) sleeper {
 }
 
 func dependent(a, b sleeper) bool {
+	if (!a.tailKnown && len(a.gs) > 0 && a.gs[0] >= 0 && b.peeks()) || (!b.tailKnown && b.gs[0] >= 0 && a.peeks()) {
+		return true
+	}
 	for _, x := range a.gs {
 		for _, y := range b.gs {
 			if x >= 0 && x == y {
@@ -240,12 +260,80 @@ func dependent(a, b sleeper) bool {
 				}
 				continue
 			}
-			if x.kind != 0 || y.kind != 0 {
+			if conflictKinds(x.kind, y.kind) {
 				return true
 			}
 		}
 	}
 	return false
+}
+
+// conflictKinds: do two accesses of these kinds to one channel conflict? A peek (the default
+// branch of a select: "no case is ready") conflicts with everything that changes readiness,
+// including the mere arrival of a partner (announce); an announcement conflicts with nothing else.
+func conflictKinds(a, b int) bool {
+	if a > b {
+		a, b = b, a
+	}
+	switch {
+	case a == 0 && b == 0:
+		return false
+	case a == 3 || b == 3:
+		return a == 0
+	}
+	return true
+}
+
+// announcements: the channels at which goroutines parked since the last transition was applied.
+// They belong to the accesses of that transition (its tail made them park there).
+func (m *Machine) announcements() []access {
+	var out []access
+	for _, g := range m.gor {
+		if g.done || !g.parked || g.pending == nil || g.parkSeq != m.path.transSeq || g.pending.kind != opComm {
+			continue
+		}
+		kind := 3
+		if g.pending.hasDefault {
+			// arriving at a select with a default branch reads the readiness of its channels:
+			// the branch taken depends on who is parked there already
+			kind = 0
+		}
+		for _, c := range g.pending.cases {
+			if c.ch != nil && !c.ch.Sink {
+				out = append(out, access{ch: c.ch, kind: kind})
+			}
+		}
+	}
+	return out
+}
+
+// settlePrevious completes the bookkeeping of the previously applied transition once its tail has
+// run: its announcements wake sleeping default-transitions that peek at those channels, and (DPOR)
+// are checked for races and recorded.
+func (m *Machine) settlePrevious() {
+	p := m.path
+	if p.settled == p.transSeq {
+		return
+	}
+	p.settled = p.transSeq
+	ann := m.announcements()
+	if m.dporOn() && len(p.trace) > 0 {
+		m.dporTailKnown(ann)
+	}
+	if len(ann) == 0 {
+		return
+	}
+	as := sleeper{gs: [2]int{-1, -1}, acc: ann, tailKnown: true}
+	var ns []sleeper
+	for _, s := range p.sleep {
+		if !dependent(s, as) {
+			ns = append(ns, s)
+		}
+	}
+	p.sleep = ns
+	if m.dporOn() && len(p.trace) > 0 {
+		m.dporAnnounce(ann)
+	}
 }
 
 // chooseN is an n-ary forked decision (unary chain of free branches).
@@ -263,6 +351,16 @@ func (m *Machine) chooseN(n int) int {
 func (m *Machine) pickTransition() (next *goroutine, ok bool) {
 	p := m.path
 	local, cands, quiesce := m.enabledTrans()
+	if local != nil && m.dporOn() {
+		// under DPOR a local step is an ordinary transition that is tried first: what its tail
+		// announces (goroutines it spawns and parks) is only known afterwards, and may race with
+		// a default branch that is enabled now
+		cands = append([]trans{{local.id, -5, -1, -1}}, cands...)
+		local = nil
+	}
+	if local == nil {
+		m.settlePrevious()
+	}
 	if local != nil {
 		local.pending = nil
 		local.parked = false
@@ -270,6 +368,12 @@ func (m *Machine) pickTransition() (next *goroutine, ok bool) {
 	}
 	if len(cands) == 0 {
 		if quiesce != nil {
+			if m.dporOn() {
+				nd := &nodeRec{key: nodeKey(p.decisions, len(p.nodes)), decOff: len(p.decisions), sleepAt: len(p.sleepAtOwn)}
+				p.nodes = append(p.nodes, nd)
+				p.sleepAtOwn = append(p.sleepAtOwn, nil)
+				m.dporStep(nd, len(p.nodes)-1, trans{quiesce.id, -3, -1, -1}, sleeper{gs: [2]int{quiesce.id, -1}}, true)
+			}
 			p.sleep = nil
 			quiesce.pending = nil
 			quiesce.parked = false
@@ -293,6 +397,9 @@ func (m *Machine) pickTransition() (next *goroutine, ok bool) {
 	}
 	if len(awake) == 0 {
 		panic(pathEnd{OutPruned, "sleep-set blocked"})
+	}
+	if m.dporOn() {
+		return m.pickDPOR(cands, awake), true
 	}
 	i := m.chooseN(len(awake))
 	t := awake[i]
@@ -322,6 +429,10 @@ func (m *Machine) pickTransition() (next *goroutine, ok bool) {
 
 // applyTrans performs the channel effect of t on behalf of its goroutine(s).
 func (m *Machine) applyTrans(t trans) *goroutine {
+	m.path.transSeq++
+	if traceTrans {
+		m.path.events = append(m.path.events, "T "+t.String()+":"+strings.ReplaceAll(m.gor[t.g].pending.what, " ", "_"))
+	}
 	g := m.gor[t.g]
 	op := g.pending
 	if Trace {
@@ -332,6 +443,10 @@ func (m *Machine) applyTrans(t trans) *goroutine {
 		x.pending = nil
 	}
 	switch {
+	case t.k == -5:
+		g.pending = nil
+		g.parked = false
+		return g
 	case t.k == -4:
 		finish(g, schedResult{})
 		g.parked = false
@@ -398,6 +513,7 @@ func (m *Machine) schedPoint(fr *frame, op *schedOp) schedResult {
 	g.pending = op
 	g.result = nil
 	g.parked = true
+	g.parkSeq = m.path.transSeq
 	g.fr = fr
 	m.schedLoop(g)
 	r := schedResult{}
@@ -455,6 +571,9 @@ func (m *Machine) schedSpawn(fr *frame, fn Value, args []Value) {
 	g := &goroutine{id: len(m.gor), fn: fn, args: args, resume: make(chan resumeMsg, 1)}
 	m.vcFork(parent, g)
 	m.gor = append(m.gor, g)
+	if m.path.gclock != nil {
+		m.path.gclock[g.id] = append([]int(nil), m.path.gclock[parent.id]...)
+	}
 	m.path.events = append(m.path.events, fmt.Sprintf("GO g%d", g.id))
 	// the child runs up to its first visible operation, then the parent continues (local step)
 	g.pending = nil
@@ -621,4 +740,65 @@ func (m *Machine) liveCount(substr, op string) int {
 		n++
 	}
 	return n
+}
+
+// pickDPOR: the DPOR variant of the choice at a scheduling node (see dpor.go).
+func (m *Machine) pickDPOR(cands, awake []trans) *goroutine {
+	p := m.path
+	ndIdx := len(p.nodes)
+	nd := &nodeRec{key: nodeKey(p.decisions, ndIdx), decOff: len(p.decisions), cands: cands, awake: awake, parked: map[int]*schedOp{}, sleepAt: len(p.sleepAtOwn)}
+	for _, g := range m.gor {
+		if !g.done && g.parked && g.pending != nil {
+			nd.parked[g.id] = g.pending
+		}
+	}
+	for _, t := range awake {
+		nd.accs = append(nd.accs, m.accessesOf(t))
+	}
+	var sleepAdd []sleeper
+	replay := p.pos < len(p.prefix) || (len(awake) == 1 && ndIdx < len(p.item.sleepAt))
+	i := 0
+	if p.pos < len(p.prefix) {
+		i = m.chooseN(len(awake)) // follows the prefix (no new forks while replaying)
+	} else if len(awake) > 1 {
+		p.decisions = append(p.decisions, true)
+	}
+	if ndIdx < len(p.item.sleepAt) {
+		sleepAdd = p.item.sleepAt[ndIdx]
+	} else {
+		nd.isNew = true
+	}
+	_ = replay
+	nd.chosen = i
+	p.nodes = append(p.nodes, nd)
+	p.sleepAtOwn = append(p.sleepAtOwn, sleepAdd)
+	t := awake[i]
+	ts := nd.accs[i]
+	if nd.isNew {
+		p.newNodes = append(p.newNodes, nodeReg{key: nd.key, chosen: ts})
+	}
+	// alternatives enabled together with the chosen transition and dependent on it
+	for a := range awake {
+		if a != i && dependent(nd.accs[a], ts) {
+			m.dporRequest(nd, a)
+		}
+	}
+	m.dporStep(nd, ndIdx, t, ts, false)
+	var ns []sleeper
+	for _, s := range p.sleep {
+		if !dependent(s, ts) {
+			ns = append(ns, s)
+		}
+	}
+	for _, s := range sleepAdd {
+		if s.t != t && !dependent(s, ts) {
+			ns = append(ns, s)
+		}
+	}
+	p.sleep = ns
+	p.schedSteps++
+	if len(awake) > 1 {
+		p.schedChoices++
+	}
+	return m.applyTrans(t)
 }
